@@ -1624,3 +1624,18 @@ M("N68", "sniffer written with slice patterns",
         _ => OS_LINE_ENDING,
     }""")],
   {})
+
+# ------------------------------------------------------------------ CLI plumbing (src/main.rs)
+M("M102", "the verify subcommand selects Mode::Build (txtpp verify rewrites files)",
+  [(MAIN, """                config.mode = Mode::Verify;""", """                config.mode = Mode::Build;""")],
+  {"C06": ["R06.4"]})
+M("M103", "the clean subcommand selects Mode::Verify",
+  [(MAIN, """                config.mode = Mode::Clean;""", """                config.mode = Mode::Verify;""")],
+  {"C06": ["R06.4"], "C07": ["R07.9"]})
+M("M104", "--recursive is inverted on its way into Config",
+  [(MAIN, """        config.recursive = self.recursive;""", """        config.recursive = !self.recursive;""")],
+  {"C11": ["R11.11"]})
+M("M105", "the positional inputs are replaced by the current directory when more than one is given",
+  [(MAIN, """        config.inputs = self.inputs.clone();""", """        config.inputs = if self.inputs.len() > 1 { vec![".".to_string()] } else { self.inputs.clone() };""")],
+  {"C11": ["R11.11"]})
+
